@@ -1,5 +1,6 @@
 import Yaql.Drv.Util
 import Yaql.Model.Resolve
+import Yaql.Model.ResolveCtx
 /-! Driver for the overload-resolution model (C05, C06, C11, C12): decodes overload
 families, class graphs and calls, runs `Yaql.Resolve.resolve` (or `resolveOld`-free
 binding functions) and encodes the outcome. -/
@@ -120,7 +121,29 @@ def encOutcome (o : Outcome) : Json :=
 def encMapping (m : Mapping) : Json :=
   jo [("pos", jl (m.pos.map fun p => nmJ p.name)), ("kwd", jl (m.kwd.map fun p => jl [nmJ p.1, nmJ p.2.name]))]
 
+/-- one history on live contexts: `{"defs":[fd…], "steps":[{"k":"root"} | {"k":"child","i":n} |
+    {"k":"reg","i":n,"name":s,"fid":n,"x":b} | {"k":"del","i":n,"name":s,"fid":n} |
+    {"k":"call","i":n,"name":s,"call":{…}}]}` -> the outcome of every call step, made in the state
+    of its moment (`Yaql.ResolveCtx.run` / `resolveIn`) -/
+def runHist (L : Lattice) (h : Json) : Json :=
+  let fds := (jarr h "defs").map decFDef
+  let defs : Yaql.ResolveCtx.Defs := fun i => (fds.find? (·.id == i)).getD default
+  let go := fun (acc : Yaql.ResolveCtx.St × List Json) (stp : Json) =>
+    let (st, outs) := acc
+    match jstr stp "k" with
+    | "root" => (Yaql.ResolveCtx.step st .root, outs)
+    | "child" => (Yaql.ResolveCtx.step st (.child (jnat stp "i")), outs)
+    | "reg" => (Yaql.ResolveCtx.step st
+                  (.register (jnat stp "i") (nm (jstr stp "name")) (jnat stp "fid") (jbool stp "x")), outs)
+    | "del" => (Yaql.ResolveCtx.step st (.delete (jnat stp "i") (nm (jstr stp "name")) (jnat stp "fid")), outs)
+    | "call" =>
+        (st, encOutcome (Yaql.ResolveCtx.resolveIn L defs st (jnat stp "i") (nm (jstr stp "name"))
+                           (decCall (jget stp "call"))) :: outs)
+    | _ => (st, outs)
+  jl ((jarr h "steps").foldl go ({}, [])).2.reverse
+
 /-- `{"lat":…, "fams":[{"layers":[…], "calls":[…]}]}` -> `{"out":[[outcome per call] per family]}`;
+    with `"op":"hist"`: `{"lat":…, "hists":[history]}` -> `{"out":[[outcome per call step] per history]}`;
     with `"op":"bind"`: `{"lat":…, "defs":[{"fd":…, "calls":[…]}]}` -> per call the result of
     `map_args` and `get_delegate` alone (no evaluation) -/
 def handle (req : Json) : Json :=
@@ -135,6 +158,7 @@ def handle (req : Json) : Json :=
                        | some m => encMapping m | none => .null),
               ("del", match getDelegate L fd.params c.args c.kwargs with
                        | some b => jo (encBound b) | none => .null)])))]
+  | "hist" => jo [("out", jl ((jarr req "hists").map (runHist L)))]
   | _ =>
       jo [("out", jl ((jarr req "fams").map fun f =>
         let layers := (jarr f "layers").map decLayer
